@@ -98,7 +98,20 @@ func DiffDumps(a, b *Dump, max int) []string {
 
 // ---------- raw helpers ----------
 
+// extraBase: further segments of the stores' base path below the root bucket (schema variant, set per run before
+// anything runs; the harness addresses raw buckets as root/<store>/... and the segments are spliced in here).
+var extraBase []string
+
+func withBase(path []string) []string {
+	if len(extraBase) == 0 || len(path) == 0 || path[0] != rootBucket {
+		return path
+	}
+	out := append([]string{rootBucket}, extraBase...)
+	return append(out, path[1:]...)
+}
+
 func rawPath(tx *bbolt.Tx, path ...string) *bbolt.Bucket {
+	path = withBase(path)
 	b := tx.Bucket([]byte(path[0]))
 	for _, p := range path[1:] {
 		if b == nil {
@@ -485,6 +498,15 @@ func Mirror(tx *bbolt.Tx, s *Stores) []Violation {
 	m.checkBackrefs("notes.about->people", StPeople, "", people, refsOf(StNotes, notes, "about"), false)
 	m.checkBackrefs("tickets.assignee->people", StPeople, "", people, refsOf(StTickets, tickets, "assignee"), false)
 	m.checkBackrefs("memos.topic->groups", StGroups, "", groups, refsOf(StMemos, memos, "topic"), false)
+	sponsors := map[string]string{}
+	for _, id := range people {
+		for _, child := range []string{StStaff, StPX} {
+			if v, ok := rawString(rawPath(tx, rootBucket, StPeople, id, child), "sponsor"); ok && v != "" {
+				sponsors[child+":"+id] = v
+			}
+		}
+	}
+	m.checkBackrefs("staff/px.sponsor->groups", StGroups, "", groups, sponsors, false)
 	m.checkBackrefs("desks.occupant->people.desks", StPeople, "desks", people, refsOf(StDesks, desks, "occupant"), true)
 	m.checkBackrefs("folders.parent->folders", StFolders, "", folders, refsOf(StFolders, folders, "parent"), false)
 	m.checkBackrefs("reviews.reviewer->staff", StStaff, "", staffIds, refsOf(StReviews, reviews, "reviewer"), false)
@@ -705,7 +727,7 @@ func propsForPersonDiff(a, b string) []string {
 	if x.Kind != StPeople {
 		set["C15"] = true
 	}
-	if x.Level != y.Level || x.Memo != y.Memo || x.Salary != y.Salary || x.Rate != y.Rate || x.Hired != y.Hired {
+	if x.Level != y.Level || x.Memo != y.Memo || x.Salary != y.Salary || x.Rate != y.Rate || x.Hired != y.Hired || strOr(x.Sponsor) != strOr(y.Sponsor) {
 		set["C15"] = true
 	}
 	set["C07"] = true // a committed transaction whose stored state is not the complete effect of its operations
